@@ -84,10 +84,16 @@ func (b *casBufferWithBackgroundTask) IntoWriter(w io.Writer) error {
 func (b *casBufferWithBackgroundTask) ReadAt(p []byte, off int64) (int, error) {
 	n, err := b.base.ReadAt(p, off)
 	<-b.task.completion
-	if err != nil {
+	if err != nil && err != io.EOF {
 		return n, err
 	}
-	return n, b.task.err
+	// Reads that reach the end of the object return io.EOF, even
+	// though the data itself is fine. Don't let that hide failures
+	// of the background task.
+	if b.task.err != nil {
+		return n, b.task.err
+	}
+	return n, err
 }
 
 func (b *casBufferWithBackgroundTask) ToProto(m proto.Message, maximumSizeBytes int) (proto.Message, error) {
